@@ -4,8 +4,10 @@ import (
 	"encoding/json"
 	"fmt"
 	"net/http"
+	"strconv"
 	"strings"
 	"sync"
+	"sync/atomic"
 
 	"github.com/google/martian/v3/parse"
 )
@@ -32,10 +34,22 @@ type probe struct {
 	id     string
 	errReq bool
 	errRes bool
+	count  bool
+	n      int64
+}
+
+// stamp is what the probe appends to the trace: its id, and for a counting
+// probe the number of messages this instance has seen so far (so that a fresh
+// instance is distinguishable from one that has been running).
+func (p *probe) stamp() string {
+	if !p.count {
+		return p.id
+	}
+	return p.id + "#" + strconv.FormatInt(atomic.AddInt64(&p.n, 1), 10)
 }
 
 func (p *probe) modifyRequest(req *http.Request) error {
-	req.Header.Add(TraceHeader, p.id)
+	req.Header.Add(TraceHeader, p.stamp())
 	if p.errReq {
 		return &ProbeError{ID: p.id, Kind: Req}
 	}
@@ -43,7 +57,7 @@ func (p *probe) modifyRequest(req *http.Request) error {
 }
 
 func (p *probe) modifyResponse(res *http.Response) error {
-	res.Header.Add(TraceHeader, p.id)
+	res.Header.Add(TraceHeader, p.stamp())
 	if p.errRes {
 		return &ProbeError{ID: p.id, Kind: Res}
 	}
@@ -51,9 +65,9 @@ func (p *probe) modifyResponse(res *http.Response) error {
 }
 
 // three method sets, so that parse.NewResult sees different supported scopes
-type probeBoth struct{ p probe }
-type probeReq struct{ p probe }
-type probeRes struct{ p probe }
+type probeBoth struct{ p *probe }
+type probeReq struct{ p *probe }
+type probeRes struct{ p *probe }
 
 func (x *probeBoth) ModifyRequest(r *http.Request) error   { return x.p.modifyRequest(r) }
 func (x *probeBoth) ModifyResponse(r *http.Response) error { return x.p.modifyResponse(r) }
@@ -63,6 +77,7 @@ func (x *probeRes) ModifyResponse(r *http.Response) error  { return x.p.modifyRe
 type probeJSON struct {
 	ID    string               `json:"id"`
 	ErrOn []string             `json:"errOn"`
+	Count string               `json:"count"`
 	Scope []parse.ModifierType `json:"scope"`
 }
 
@@ -78,7 +93,7 @@ func RegisterProbes() {
 				if err := json.Unmarshal(b, msg); err != nil {
 					return nil, err
 				}
-				p := probe{id: msg.ID}
+				p := &probe{id: msg.ID, count: msg.Count != ""}
 				for _, e := range msg.ErrOn {
 					switch strings.ToLower(e) {
 					case "request":
